@@ -151,3 +151,20 @@ def dipoleVector (gx gy gz : Grid1 K) (s : Seg K) : EF K :=
     z := fun i j k => v.z i j k * (s.p1.2.2 - s.p0.2.2) }
 
 end Src
+
+namespace Src
+open Emg
+variable {K : Type} [Add K] [Sub K] [Mul K] [Div K] [Neg K] [OfNat K 0] [OfNat K 2] [OfNat K 4]
+
+/-- `fields._edge_curl_factor`: `(∇×E)` on the faces divided by the two-cell average of
+`ζ⁻¹ = s μ₀ μ_r / V`-type factor, as coded; faces with index 0 in their own direction are not
+written (they stay 0), and only indices inside the loop range are written -/
+def edgeCurlFactor (g : Grid K) (zeta : F3 K) (e : EF K) : EF K :=
+  { x := fun i j k => if i < g.nx ∧ j < g.ny ∧ k < g.nz ∧ i ≠ 0 then
+      curlX g e i j k * (zeta (i-1) j k + zeta i j k) / ((g.hx (i-1) + g.hx i) * g.hy j * g.hz k) else 0
+    y := fun i j k => if i < g.nx ∧ j < g.ny ∧ k < g.nz ∧ j ≠ 0 then
+      curlY g e i j k * (zeta i (j-1) k + zeta i j k) / (g.hx i * (g.hy (j-1) + g.hy j) * g.hz k) else 0
+    z := fun i j k => if i < g.nx ∧ j < g.ny ∧ k < g.nz ∧ k ≠ 0 then
+      curlZ g e i j k * (zeta i j (k-1) + zeta i j k) / (g.hx i * g.hy j * (g.hz (k-1) + g.hz k)) else 0 }
+
+end Src
